@@ -105,6 +105,52 @@ func vSymDefault(t int, tag string) vVal {
 	return vVal{}
 }
 
+// The default of a multi-valued parameter as a Go slice. With vShareDefaults the very
+// same slice (same backing array) is handed to every declaration of the harness run,
+// the common way for an application to share one default between parameters.
+var (
+	vShareDefaults bool
+	vSharedStrings []string
+	vSharedInts    []int
+	vSharedFloats  []float64
+)
+
+func vDefStrings(def []vVal) []string {
+	if vShareDefaults && vSharedStrings != nil {
+		return vSharedStrings
+	}
+	var d []string
+	for _, v := range def {
+		d = append(d, v.s)
+	}
+	vSharedStrings = d
+	return d
+}
+
+func vDefInts(def []vVal) []int {
+	if vShareDefaults && vSharedInts != nil {
+		return vSharedInts
+	}
+	var d []int
+	for _, v := range def {
+		d = append(d, v.i)
+	}
+	vSharedInts = d
+	return d
+}
+
+func vDefFloats(def []vVal) []float64 {
+	if vShareDefaults && vSharedFloats != nil {
+		return vSharedFloats
+	}
+	var d []float64
+	for _, v := range def {
+		d = append(d, v.f)
+	}
+	vSharedFloats = d
+	return d
+}
+
 // vUsePtrAPI selects the XxxPtr(&v, ...) flavour of the declaration functions.
 var vUsePtrAPI bool
 
@@ -148,10 +194,7 @@ func vDeclareTyped(app *Cli, t int, asOpt bool, def []vVal, env string, user *bo
 		}
 		return func() []vVal { return []vVal{{f: *p}} }
 	case tStrings:
-		var d []string
-		for _, v := range def {
-			d = append(d, v.s)
-		}
+		d := vDefStrings(def)
 		var p *[]string
 		if asOpt {
 			p = app.Strings(StringsOpt{Name: "x xx", Value: d, EnvVar: env, SetByUser: user, HideValue: true})
@@ -166,10 +209,7 @@ func vDeclareTyped(app *Cli, t int, asOpt bool, def []vVal, env string, user *bo
 			return out
 		}
 	case tInts:
-		var d []int
-		for _, v := range def {
-			d = append(d, v.i)
-		}
+		d := vDefInts(def)
 		var p *[]int
 		if asOpt {
 			p = app.Ints(IntsOpt{Name: "x xx", Value: d, EnvVar: env, SetByUser: user, HideValue: true})
@@ -184,10 +224,7 @@ func vDeclareTyped(app *Cli, t int, asOpt bool, def []vVal, env string, user *bo
 			return out
 		}
 	case tFloats:
-		var d []float64
-		for _, v := range def {
-			d = append(d, v.f)
-		}
+		d := vDefFloats(def)
 		var p *[]float64
 		if asOpt {
 			p = app.Floats64(Floats64Opt{Name: "x xx", Value: d, EnvVar: env, SetByUser: user, HideValue: true})
@@ -264,7 +301,9 @@ func H_prec() {
 	t := vParamInt("type")
 	asOpt := vParamInt("opt") == 1
 	vUsePtrAPI = vParamInt("ptr") == 1
-	sibling := vParamInt("sibling") == 1 // a second parameter of the same type declared with the same default
+	sibling := vParamInt("sibling") == 1 // a second parameter of the same type declared with the same default slice
+	vShareDefaults = sibling
+	vSharedStrings, vSharedInts, vSharedFloats = nil, nil, nil
 	check := vParamString("check")
 	envLen := vParamInt("envLen")
 	cliLen := vParamInt("cliLen")
@@ -370,6 +409,9 @@ func H_prec() {
 			app.Spec = "[--xx...] [-w] [Y]"
 			argv = append(argv, "pos")
 		}
+		if check == "C12" {
+			app.Spec = "--xx... [-w]" // the option is required
+		}
 	} else {
 		app.Spec = "[X...]"
 	}
@@ -424,6 +466,29 @@ func H_prec() {
 			}
 		} else {
 			vAssert(ran == 1 && hooks == 2 && err == nil && !exited && rec == nil, "C07: an accepted invocation must return nil and neither exit nor panic")
+		}
+		return
+	}
+	if check == "C12" {
+		// a required option: satisfied by a valid environment value when absent, and never
+		// rejected (nor its command-line values changed) because it also has one
+		if !accepted {
+			return
+		}
+		anyEnv := false
+		for _, e := range envs {
+			if e != "" {
+				anyEnv = true
+			}
+		}
+		if len(cli) > 0 {
+			vCover("from-cli")
+			vAssert(ran == 1 && err == nil, "C12: an option written on the command line with convertible values was rejected")
+			vAssert(vValsEq(t, got, want), "C12: the values written on the command line are not the bound values")
+		} else if anyEnv && !defAfterInvalid {
+			vCover("required-from-env")
+			vAssert(ran == 1 && err == nil, "C12: a required option absent from the command line is not satisfied by its valid environment value")
+			vAssert(vValsEq(t, got, want), "C12: the bound value is not the environment value")
 		}
 		return
 	}
@@ -520,10 +585,7 @@ func vDeclareTypedPtr(app *Cli, t int, asOpt bool, def []vVal, env string, user 
 		}
 		return func() []vVal { return []vVal{{f: *p}} }
 	case tStrings:
-		var d []string
-		for _, v := range def {
-			d = append(d, v.s)
-		}
+		d := vDefStrings(def)
 		p := new([]string)
 		if asOpt {
 			app.StringsPtr(p, StringsOpt{Name: "x xx", Value: d, EnvVar: env, SetByUser: user, HideValue: true})
@@ -538,10 +600,7 @@ func vDeclareTypedPtr(app *Cli, t int, asOpt bool, def []vVal, env string, user 
 			return out
 		}
 	case tInts:
-		var d []int
-		for _, v := range def {
-			d = append(d, v.i)
-		}
+		d := vDefInts(def)
 		p := new([]int)
 		if asOpt {
 			app.IntsPtr(p, IntsOpt{Name: "x xx", Value: d, EnvVar: env, SetByUser: user, HideValue: true})
@@ -556,10 +615,7 @@ func vDeclareTypedPtr(app *Cli, t int, asOpt bool, def []vVal, env string, user 
 			return out
 		}
 	case tFloats:
-		var d []float64
-		for _, v := range def {
-			d = append(d, v.f)
-		}
+		d := vDefFloats(def)
 		p := new([]float64)
 		if asOpt {
 			app.Floats64Ptr(p, Floats64Opt{Name: "x xx", Value: d, EnvVar: env, SetByUser: user, HideValue: true})
